@@ -182,8 +182,8 @@ def count(R, ctx):
                          "current_line is %s" % ("incremented" if ok else "assigned/decremented: the counter may move backwards and later tokens get over-padded"))
                 if l.get("k") == "Field" and l.get("adt") == GEN and l.get("f") == "output":
                     R.ob(rid, "output|assign@%s" % short, False, ctx.where(fn, n.get("ln")), "the output buffer is reassigned")
-    R.require(rid, "floor:output-writes", n_writes >= 5, "", "%d writes to the output buffer found (floor 5)" % n_writes)
-    R.require(rid, "floor:line-updates", n_line >= 3, "", "%d updates of current_line found (floor 3)" % n_line)
+    R.require(rid, "floor:output-writes", n_writes >= 3, "", "%d writes to the output buffer found (floor 3)" % n_writes)
+    R.require(rid, "floor:line-updates", n_line >= 1, "", "%d updates of current_line found (floor 1)" % n_line)
 
 
 def pad(R, ctx):
